@@ -15,6 +15,7 @@ import (
 	"math/rand/v2"
 	"net/http"
 	"os"
+	"sort"
 	"strings"
 	"sync"
 	"testing"
@@ -26,6 +27,7 @@ import (
 	"github.com/jech/storrent/peer"
 	"github.com/jech/storrent/webseed"
 	fixture "github.com/jech/storrent/zzverif/fixmeta"
+	rc "github.com/jech/storrent/zzverif/refcodec"
 	"github.com/jech/storrent/zzverif/vh"
 )
 
@@ -47,14 +49,19 @@ func (h *c14) chunksCase(files []fixture.File, psize int) {
 	if err != nil {
 		return
 	}
-	total := t.Pieces.Length()
-	desc := func() string {
-		var l []string
-		for _, f := range files {
-			l = append(l, fmt.Sprintf("%s:%d:%v", strings.Join(f.Path, "/"), f.Length, f.Padding))
-		}
-		return "[files " + strings.Join(l, " ") + "]"
+	var l []string
+	for _, f := range files {
+		l = append(l, fmt.Sprintf("%s:%d:%v", strings.Join(f.Path, "/"), f.Length, f.Padding))
 	}
+	h.chunksOn(t, psize, len(files), "[files "+strings.Join(l, " ")+"]", nil)
+}
+
+// chunksOn judges fileChunks on the torrent t.  pieces == nil: every piece and every
+// hole maybeWebseed can produce; otherwise only the listed pieces, with a boundary
+// alphabet of offsets and lengths (for torrents whose pieces have hundreds of blocks).
+func (h *c14) chunksOn(t *Torrent, psize int, nfiles int, description string, pieces []uint32) {
+	total := t.Pieces.Length()
+	desc := func() string { return description }
 	check := func(index, offset, length uint32) {
 		h.res.Add("evaluations", 1)
 		var fcs []filechunk
@@ -111,9 +118,48 @@ func (h *c14) chunksCase(files []fixture.File, psize int) {
 		if pos != end && !(o >= total && len(fcs) == 0) {
 			h.viol("C14/filechunks-coverage", "%s: the chunks cover torrent range [%d,%d), the request is [%d,%d)", where, o, pos, o, end)
 		}
-		h.nontriv[fmt.Sprintf("fc/%d/%d", len(fcs), len(files))] = true
+		h.nontriv[fmt.Sprintf("fc/%d/%d/%v", len(fcs), nfiles, o >= 1<<32)] = true
 	}
 	np := uint32((total + int64(psize) - 1) / int64(psize))
+	if pieces != nil {
+		for _, idx := range pieces {
+			if idx >= np {
+				continue
+			}
+			pl := t.Pieces.PieceLength(idx)
+			base := int64(idx) * int64(psize)
+			offs := map[uint32]bool{0: true, 16384: true, (pl - 1) / 16384 * 16384: true}
+			// the blocks that contain a file boundary or a multiple of 4 GiB, and their neighbours
+			marks := []int64{1 << 32, 1 << 33}
+			for _, f := range t.Files {
+				marks = append(marks, f.Offset, f.Offset+f.Length)
+			}
+			for _, m := range marks {
+				for _, d := range []int64{-16384, 0, 16384} {
+					if x := m - base + d; x >= 0 && x < int64(pl) {
+						offs[uint32(x)/16384*16384] = true
+					}
+				}
+			}
+			for _, off := range vmapKeysU32(offs) {
+				if off >= pl {
+					continue
+				}
+				for _, l := range []uint32{16384, 32768, 5 * 16384, pl - off} {
+					if off+l > pl {
+						l = pl - off
+					}
+					check(idx, off, l)
+				}
+				for _, tr := range [][2]uint32{{off + 1, 1}, {off + 100, 16384}, {off + 16383, 2}} {
+					if tr[0] < pl && tr[0]+tr[1] <= pl {
+						check(idx, tr[0], tr[1])
+					}
+				}
+			}
+		}
+		return
+	}
 	for idx := uint32(0); idx < np; idx++ {
 		pl := t.Pieces.PieceLength(idx)
 		for off := uint32(0); off < pl; off += 16384 {
@@ -131,6 +177,83 @@ func (h *c14) chunksCase(files []fixture.File, psize int) {
 			if tr[0] < pl && tr[0]+tr[1] <= pl && tr[1] > 0 {
 				check(idx, tr[0], tr[1])
 			}
+		}
+	}
+}
+
+func vmapKeysU32(m map[uint32]bool) []uint32 {
+	var l []uint32
+	for k := range m {
+		l = append(l, k)
+	}
+	sort.Slice(l, func(i, j int) bool { return l[i] < l[j] })
+	return l
+}
+
+// chunksHuge: file tables whose total exceeds 4 GiB (and 8 GiB), piece lengths that are
+// and are not powers of two; the pieces around every multiple of 4 GiB, around every
+// file boundary, and the first and last ones.  No piece data is needed for fileChunks.
+func (h *c14) chunksHuge(mine func() bool) {
+	type lay struct {
+		name  string
+		files [][2]int64 // length, padding flag
+	}
+	const G = int64(1) << 30
+	lays := []lay{
+		{"single", nil},
+		{"big+small+tail", [][2]int64{{4*G + 100, 0}, {16284, 0}, {40000, 0}}},
+		{"3G+3G", [][2]int64{{3 * G, 0}, {3*G + 5, 0}}},
+		{"boundary-at-4G", [][2]int64{{4*G - 16384, 0}, {16384, 0}, {1 << 20, 0}}},
+		{"boundary-at-4G+1", [][2]int64{{4*G + 1, 0}, {0, 0}, {70000, 0}}},
+		{"pad-across-4G", [][2]int64{{4*G - 100, 0}, {200, 1}, {5 * G, 0}}},
+		{"small-then-big", [][2]int64{{1, 0}, {9 * G, 0}, {16385, 0}}},
+	}
+	for _, pl := range []int64{1 << 20, 1<<20 + 16384, 3 << 20, 1 << 24} {
+		for _, la := range lays {
+			if !mine() {
+				continue
+			}
+			var total int64
+			var fl []rc.Value
+			var l []string
+			for i, f := range la.files {
+				var attr rc.Value
+				if f[1] != 0 {
+					attr = "p"
+				}
+				fl = append(fl, fileEntry(f[0], plist(fmt.Sprintf("f%d", i)), attr, nil))
+				l = append(l, fmt.Sprintf("f%d:%d:%v", i, f[0], f[1] != 0))
+				total += f[0]
+			}
+			var info *rc.Dict
+			if la.files == nil {
+				total = 5*G + 7
+				n := int((total + pl - 1) / pl)
+				info = dict(kv{"length", total}, kv{"name", "huge"}, kv{"piece length", pl}, kv{"pieces", hashes(n)})
+			} else {
+				n := int((total + pl - 1) / pl)
+				info = dict(kv{"files", fl}, kv{"name", "huge"}, kv{"piece length", pl}, kv{"pieces", hashes(n)})
+			}
+			t, err := ReadTorrent("", bytes.NewReader(rc.Bencode(dict(kv{"info", info}))))
+			if err != nil {
+				h.viol("C14/huge-fixture", "cannot build the %s torrent with piece length %d: %v", la.name, pl, err)
+				continue
+			}
+			np := uint32((total + pl - 1) / pl)
+			ps := map[uint32]bool{0: true, 1: true, np - 1: true, np - 2: true}
+			marks := []int64{1 << 32, 1 << 33}
+			for _, f := range t.Files {
+				marks = append(marks, f.Offset, f.Offset+f.Length)
+			}
+			for _, m := range marks {
+				for d := int64(-2); d <= 1; d++ {
+					if x := m/pl + d; x >= 0 && x < int64(np) {
+						ps[uint32(x)] = true
+					}
+				}
+			}
+			h.chunksOn(t, int(pl), len(la.files), fmt.Sprintf("[huge %s, piece length %d, files %s]", la.name, pl, strings.Join(l, " ")), vmapKeysU32(ps))
+			h.res.Add("huge_file_tables", 1)
 		}
 	}
 }
@@ -818,6 +941,8 @@ func TestVerifC14(t *testing.T) {
 	}
 	_ = rec
 	rec2(h, res, nil, maxFiles, lens)
+	// torrents beyond 4 GiB: piece index x piece size no longer fits 32 bits
+	h.chunksHuge(mine)
 	if vh.Mine(0) {
 		h.chunksCase([]fixture.File{{Length: 81921}}, 32768) // single-file
 		res.Sample(map[string]any{"file table": "f0:100 f1:16284(pad) f2:40000", "range": "piece 0, offset 0, length 32768"})
